@@ -83,6 +83,9 @@ PENDING = {
     "cum.sequential:zero-size-chunk:result-shape": "sequential cumsum/cumprod/nancumsum over an axis with a zero-size chunk: blocks after the empty "
                                                    "one are empty (lazy 6, computed 3) or _cumsum_merge raises; C25.md #6",
     "coarsen:zero-size-chunk:result-shape": "coarsen drops chunks that coarsen to 0 from .chunks but keeps their keys: lazy (6,1) computed (0,1); C25.md #7",
+    "aligned-op:all-axes-empty-array-in-several-zero-size-chunks:blocks-do-not-match-chunks":
+        "an array whose axes are ALL empty, one of them split into several zero-size chunks, concatenated/combined with another operand: "
+        "Array.rechunk returns such an array unchanged, so the operands are not aligned and .blocks[i] raises IndexError; C25.md #9",
     "reduce.var-std:zero-size-chunk:vs-numpy-values": "var/std of an array with a zero-size chunk is NaN (0/0 in the moment combine); metadata is "
                                                       "consistent, C22 value defect; C25.md #8",
 }
@@ -288,6 +291,8 @@ def _features(step, d_prev, value_prev):
         f.append("zero-length")
     if np.ndim(value_prev) == 0:
         f.append("0-d")
+    elif not any(np.shape(value_prev)):
+        f.append("all-axes-empty")
     if d_prev is not None:
         if any(_isnan(c) for cs in d_prev.chunks for c in cs):
             f.append("unknown-chunks")
@@ -330,6 +335,9 @@ def classify(st, name, feat, facet):
             return "reduce.var-std:zero-size-chunk:vs-numpy-values"
         if op == "coarsen" and shapeish:
             return "coarsen:zero-size-chunk:result-shape"
+    if SHORT_AXIS in f and "all-axes-empty" in f:
+        # x.rechunk(...) is a no-op for an array whose axes are ALL empty, so unify_chunks cannot bring it to one chunk
+        return "aligned-op:all-axes-empty-array-in-several-zero-size-chunks:blocks-do-not-match-chunks"
     if SHORT_AXIS in f:
         return "aligned-op:%s:blocks-do-not-match-chunks" % SHORT_AXIS          # unify_chunks
     return "%s:%s:%s" % (name, feat, facet)
